@@ -49,7 +49,7 @@ def run(chk):
     chk.guard('invlpgb', 'Invlpgb object', lambda: invlpgb_object(chk))
     chk.guard('flush-token', 'ignore', lambda: ignore_tokens(chk))
     chk.guard('invlpgb', 'flush loop', lambda: flush_loop(chk))
-    chk.guard('asm-options', 'tlb.rs', lambda: asm_not_pure(chk, chk.I, 'asm-options', ['src/instructions/tlb.rs'], 4))
+    chk.guard('asm-options', 'tlb.rs', lambda: asm_not_pure(chk, chk.I, 'asm-options', ['src/instructions/tlb.rs'], 7))
     chk.floor('obligations', len(chk.obs), 74)
 
 
@@ -208,7 +208,7 @@ def broadcast(chk):
                        (size, 'Some' if has_pc else 'None', 'Some' if has_as else 'None'), ok, detail, fn_site(I, B + 'flush'))
 
 
-B = TLB + "InvlpgbFlushBuilder::<'a, S>::"
+B = TLB + "InvlpgbFlushBuilder::<'_, S>::"
 
 
 _PERM = {}
